@@ -619,6 +619,8 @@ func gen(stream string, seed uint64, n int, out string) {
 	for i := 0; i < n; i++ {
 		if strings.HasPrefix(stream, "misc") {
 			genMiscCase(root.Fork(), i, w)
+		} else if strings.HasPrefix(stream, "inf") {
+			genInfCase(root.Fork(), i, w)
 		} else if strings.HasPrefix(stream, "idxc") {
 			genIdxcCase(root.Fork(), i, w)
 		} else if strings.HasPrefix(stream, "joinx") {
